@@ -1413,3 +1413,433 @@ Theorem set_bits_correct a b i j :
 Proof.
   split; [|reflexivity]. unfold el, mset_bits. cbn [dat]. apply get_map_map. apply Zmod_0_l.
 Qed.
+
+(* ------------------------------------------------------------------ put: the whole loop *)
+Section PutRange.
+  Local Ltac Zify.zify_post_hook ::= Z.to_euclidean_division_equations.
+  Lemma put_ix_range count mode ix p : 0 < count -> put_ix count mode ix = Some p -> 0 <= p < count.
+  Proof.
+    intros Hc. unfold put_ix. cbn zeta. destruct mode;
+      repeat match goal with |- context [if ?b then _ else _] => destruct b eqn:? end;
+      intros H; inversion H; subst; clear H; lia.
+  Qed.
+End PutRange.
+
+(* value left at flat position pos by the writes of put, in the order of `ind`: the LAST write wins *)
+Fixpoint put_last (count : Z) (mode : pmode) (valf : nat -> option Z) (b pos : Z)
+         (ind : list Z) (k : nat) (d : Z) : Z :=
+  match ind with
+  | [] => d
+  | ix :: rest =>
+      match put_ix count mode ix, valf k with
+      | Some p, Some x => put_last count mode valf b pos rest (S k) (if p =? pos then trunc b x else d)
+      | _, _ => d
+      end
+  end.
+
+(* every index resolves under the mode and every value exists *)
+Fixpoint put_ok (count : Z) (mode : pmode) (valf : nat -> option Z) (ind : list Z) (k : nat) : bool :=
+  match ind with
+  | [] => true
+  | ix :: rest =>
+      match put_ix count mode ix, valf k with
+      | Some _, Some _ => put_ok count mode valf rest (S k)
+      | _, _ => false
+      end
+  end.
+
+Lemma wfx_set_flat r c a ix x : wfx r c a -> wfx r c (set_flat a ix x) /\ bits (set_flat a ix x) = bits a.
+Proof.
+  intros W. unfold set_flat. rewrite (wfx_rows r c a W), (wfx_cols r c a W).
+  split; [|reflexivity]. split; [apply wfm_mk|]. split; apply W.
+Qed.
+
+Theorem put_loop_spec r c mode valf : forall ind a k,
+  wfx r c a ->
+  (put_loop a (Z.of_nat (r * c)) mode valf ind k = None <-> put_ok (Z.of_nat (r * c)) mode valf ind k = false) /\
+  (forall res, put_loop a (Z.of_nat (r * c)) mode valf ind k = Some res ->
+     wfx r c res /\ bits res = bits a /\
+     forall i j, (i < r)%nat -> (j < c)%nat ->
+       el res i j = put_last (Z.of_nat (r * c)) mode valf (bits a) (Z.of_nat (i * c + j)) ind k (el a i j)).
+Proof.
+  induction ind as [|ix rest IH]; intros a k W; cbn [put_loop put_ok put_last].
+  - split; [split; discriminate|]. intros res H. inversion H; subst. repeat split; try apply W; reflexivity.
+  - destruct (put_ix (Z.of_nat (r * c)) mode ix) as [p|] eqn:Ep; [|split; [tauto|discriminate]].
+    destruct (valf k) as [x|] eqn:Ev; [|split; [tauto|discriminate]].
+    destruct (wfx_set_flat r c a p x W) as [W' B'].
+    destruct (IH (set_flat a p x) (S k) W') as [IHn IHs]. split; [exact IHn|].
+    intros res H. destruct (IHs res H) as [Wr [Br Hel]]. split; [exact Wr|]. split; [congruence|].
+    intros i j Hi Hj. rewrite (Hel i j Hi Hj), B'. f_equal.
+    assert (Hcount : 0 < Z.of_nat (r * c)) by (destruct W as [_ [? ?]]; nia).
+    pose proof (put_ix_range _ _ _ _ Hcount Ep) as Hp.
+    rewrite (set_flat_spec r c a p x i j W Hp Hi Hj).
+    rewrite (Z.eqb_sym p). reflexivity.
+Qed.
+
+Lemma put_loop_maxb count mode valf : forall ind a k res,
+  put_loop a count mode valf ind k = Some res -> maxb res = maxb a.
+Proof.
+  induction ind as [|ix rest IH]; intros a k res H; cbn [put_loop] in H.
+  - inversion H. reflexivity.
+  - destruct (put_ix count mode ix); [|discriminate]. destruct (valf k); [|discriminate].
+    apply IH in H. exact H.
+Qed.
+
+(* m.put(ind, v, mode) with a non-empty list of values *)
+Theorem put_list_spec r c a ind v mode : wfx r c a -> v <> [] ->
+  let count := Z.of_nat (r * c) in
+  (mput_list a ind v mode = None <-> exists ix, In ix ind /\ put_ix count mode ix = None) /\
+  (forall res, mput_list a ind v mode = Some res ->
+     wfx r c res /\ bits res = bits a /\ maxb res = maxb a /\
+     forall i j, (i < r)%nat -> (j < c)%nat ->
+       el res i j = put_last count mode (put_val_list v) (bits a) (Z.of_nat (i * c + j)) ind 0 (el a i j)).
+Proof.
+  intros W Hv count. unfold mput_list. destruct v as [|v0 vs]; [congruence|].
+  rewrite (wfx_rows r c a W), (wfx_cols r c a W). fold count.
+  destruct (put_loop_spec r c mode (put_val_list (v0 :: vs)) ind a 0 W) as [Hn Hs]. fold count in Hn, Hs.
+  split.
+  - rewrite Hn. clear. generalize 0%nat. induction ind as [|ix rest IH]; intros k; cbn [put_ok].
+    + split; [discriminate|]. intros [ix [[] _]].
+    + destruct (put_ix count mode ix) eqn:E.
+      * unfold put_val_list at 1. rewrite IH. split.
+        -- intros [ix' [Hin Hx]]. exists ix'. split; [right; exact Hin|exact Hx].
+        -- intros [ix' [[<-|Hin] Hx]]; [congruence|]. exists ix'. split; assumption.
+      * split; [|reflexivity]. intros _. exists ix. split; [left; reflexivity|exact E].
+  - intros res H. destruct (Hs res H) as [Wr [Br Hel]]. repeat split; try assumption; try apply Wr.
+    apply (put_loop_maxb _ _ _ _ _ _ _ H).
+Qed.
+
+(* ------------------------------------------------------------------ in-place operators *)
+Lemma map_trunc_id r c n : wfx r c n -> mrange n -> map (map (trunc (bits n))) (dat n) = dat n.
+Proof.
+  intros [Wm _] R. apply (mat_ext r c); [|exact Wm|].
+  - destruct Wm as [L F]. split; [rewrite map_length; exact L|]. apply Forall_forall. intros row Hin.
+    apply in_map_iff in Hin. destruct Hin as [row' [<- Hin]]. rewrite map_length.
+    rewrite Forall_forall in F. apply F, Hin.
+  - intros i j _ _. rewrite get_map_map by apply Zmod_0_l. apply trunc_id, R.
+Qed.
+
+Lemma inplace_copy r c a n : wfx r c n -> mrange n -> 0 <= bits n <= maxb a ->
+  dat (mcopy (inplace_self a n)) = dat n /\ bits (mcopy (inplace_self a n)) = bits n /\
+  maxb (mcopy (inplace_self a n)) = maxb a.
+Proof.
+  intros W R Hb.
+  assert (W' : wfx r c (inplace_self a n)) by exact W.
+  assert (R' : mrange (inplace_self a n)) by exact R.
+  destruct (copy_correct r c (inplace_self a n) W' Hb R') as [E1 E2].
+  split; [exact E1|]. split; [exact E2|reflexivity].
+Qed.
+
+Lemma capb_nonneg b mb : 0 <= b -> 0 <= mb -> 0 <= capb b mb.
+Proof. intros. unfold capb. destruct (b >? mb); assumption. Qed.
+
+(* a += b, a -= b, a *= b (element-wise): the value is the operator's result, re-read through
+   to_wirevector (copy), with the same bits and the max_bits of a *)
+Theorem inplace_elementwise r c a b : wfx r c a -> 0 <= bits a -> 0 <= bits b -> 0 <= maxb a ->
+  (dat (miadd a b) = dat (madd a b) /\ bits (miadd a b) = bits (madd a b) /\ maxb (miadd a b) = maxb a) /\
+  (dat (misub a b) = dat (msub a b) /\ bits (misub a b) = bits (msub a b) /\ maxb (misub a b) = maxb a) /\
+  (dat (mimul a b) = dat (mmul a b) /\ bits (mimul a b) = bits (mmul a b) /\ maxb (mimul a b) = maxb a).
+Proof.
+  intros W Ha Hb Hm. pose proof W as [_ [Hr Hc]].
+  assert (Hw : forall bb f, wfx r c (mnew (rows_of a) (cols_of a) bb (maxb a) f)).
+  { intros. rewrite (wfx_rows r c a W), (wfx_cols r c a W). apply wfx_mnew; assumption. }
+  assert (Hrange : forall bb f, 0 <= bb -> mrange (mnew (rows_of a) (cols_of a) bb (maxb a) f)).
+  { intros. apply mrange_mnew. apply capb_nonneg; assumption. }
+  assert (Hbits : forall bb f, 0 <= bb -> 0 <= bits (mnew (rows_of a) (cols_of a) bb (maxb a) f) <= maxb a).
+  { intros bb f H. cbn [mnew bits]. split; [apply capb_nonneg; assumption|apply capb_le]. }
+  split; [|split].
+  - unfold miadd. set (n := madd a b).
+    assert (Wn : wfx r c n) by apply Hw.
+    assert (Rn : mrange n) by (apply Hrange; destruct (bits b >? bits a); lia).
+    assert (Bn : 0 <= bits n <= maxb a) by (apply Hbits; destruct (bits b >? bits a); lia).
+    assert (E : mset_bits (MkMx (bits a) (maxb a) (dat n)) (bits n) = inplace_self a n).
+    { unfold mset_bits, inplace_self. cbn [dat maxb]. f_equal. apply (map_trunc_id r c); assumption. }
+    rewrite E. apply (inplace_copy r c); assumption.
+  - unfold misub. apply (inplace_copy r c); [apply Hw|apply Hrange|apply Hbits]; destruct (bits b >? bits a); lia.
+  - unfold mimul. apply (inplace_copy r c); [apply Hw|apply Hrange|apply Hbits]; lia.
+Qed.
+
+Theorem inplace_matmul r K c a b : wfx r K a -> wfx K c b -> 0 <= maxb a -> 0 <= bits a + bits b ->
+  dat (mimatmul a b) = dat (mmatmul a b) /\ bits (mimatmul a b) = bits (mmatmul a b) /\
+  maxb (mimatmul a b) = maxb a.
+Proof.
+  intros Wa Wb Hm Hs. unfold mimatmul. apply (inplace_copy r c).
+  - apply (wfx_matmul r K c); assumption.
+  - apply (mrange_matmul r K c); assumption.
+  - split; [apply matmul_bits_nonneg; assumption|]. cbn [mmatmul bits]. apply capb_le.
+Qed.
+
+Lemma pow_wf r a n : wfx r r a -> mrange a -> 0 < bits a <= maxb a ->
+  wfx r r (mpow a n) /\ mrange (mpow a n) /\ 0 < bits (mpow a n) <= maxb a /\ maxb (mpow a n) = maxb a.
+Proof.
+  intros Wa Ra Hb.
+  destruct (copy_correct r r a Wa ltac:(lia) Ra) as [Cd Cb].
+  set (c := mcopy a) in *.
+  assert (Mc : maxb c = maxb a) by reflexivity.
+  assert (Wc : wfx r r c).
+  { destruct Wa as [Wm [Hr Hc]]. split; [rewrite Cd; exact Wm|split; assumption]. }
+  assert (Ec : forall i j, el c i j = el a i j) by (intros; unfold el; rewrite Cd; reflexivity).
+  assert (Rc : mrange c) by (intros i' j'; rewrite Ec, Cb; apply Ra).
+  unfold mpow. fold c. destruct n as [|k].
+  - unfold midentity. rewrite (wfx_rows r r c Wc), (wfx_cols r r c Wc). cbn [bits maxb].
+    split; [split; [apply wfm_mk|split; apply Wa]|]. split; [|split; [lia|exact Mc]].
+    intros i j. unfold el. cbn [dat bits].
+    destruct (lt_dec i r) as [Hi|Hi]; [destruct (lt_dec j r) as [Hj|Hj]|].
+    + rewrite get_mk by assumption. apply trunc_range. lia.
+    + rewrite get_mk_out by lia. split; [lia|apply pow2_pos; lia].
+    + rewrite get_mk_out by lia. split; [lia|apply pow2_pos; lia].
+  - assert (Inv0 : pow_inv r a c 1).
+    { split; [exact Wc|]. split; [exact Mc|]. split; [exact Rc|]. split; [lia|].
+      left. intros i' j' _ _. cbn [mat_pow_spec]. apply Ec. }
+    pose proof (pow_from_inv r a c Wa Hb Wc Cb Rc Ec k c 0%nat Inv0) as [Wn [Mn [Rn [Bn _]]]].
+    split; [exact Wn|]. split; [exact Rn|]. split; [exact Bn|exact Mn].
+Qed.
+
+Theorem inplace_pow r a n : wfx r r a -> mrange a -> 0 < bits a <= maxb a ->
+  dat (mipow a n) = dat (mpow a n) /\ bits (mipow a n) = bits (mpow a n) /\ maxb (mipow a n) = maxb a.
+Proof.
+  intros Wa Ra Hb. destruct (pow_wf r a n Wa Ra Hb) as [Wn [Rn [Bn Mn]]].
+  unfold mipow. apply (inplace_copy r r); [exact Wn|exact Rn|lia].
+Qed.
+
+(* ------------------------------------------------------------------ stacking: any number of operands *)
+Lemma fold_max_ge l : forall x, x <= fold_left Z.max l x /\ forall y, In y l -> y <= fold_left Z.max l x.
+Proof.
+  induction l as [|z l IH]; intros x; cbn [fold_left]; [split; [lia|intros y []]|].
+  destruct (IH (Z.max x z)) as [H1 H2]. split; [lia|]. intros y [<-|Hy]; [lia|apply H2, Hy].
+Qed.
+Lemma zmaxl_ge l x : In x l -> x <= zmaxl l.
+Proof.
+  destruct l as [|z l]; [intros []|]. cbn [zmaxl]. destruct (fold_max_ge l z) as [H1 H2].
+  intros [<-|H]; [exact H1|apply H2, H].
+Qed.
+Lemma fold_max_in l : forall x, fold_left Z.max l x = x \/ In (fold_left Z.max l x) l.
+Proof.
+  induction l as [|z l IH]; intros x; cbn [fold_left]; [left; reflexivity|].
+  destruct (IH (Z.max x z)) as [E|Hin]; [|right; right; exact Hin].
+  rewrite E. destruct (Z.max_spec x z) as [[_ ->]|[_ ->]]; [right; left; reflexivity|left; reflexivity].
+Qed.
+Lemma zmaxl_in l : l <> [] -> In (zmaxl l) l.
+Proof.
+  destruct l as [|z l]; [congruence|]. intros _. cbn [zmaxl].
+  destruct (fold_max_in l z) as [->|H]; [left; reflexivity|right; exact H].
+Qed.
+
+(* operands of a stack: common number R of rows (hstack) / C of columns (vstack), elements in range *)
+Definition stackable_h (R : nat) (m : Mx) : Prop :=
+  exists c, wfx R c m /\ mrange m /\ 0 <= bits m <= maxb m.
+Definition stackable_v (C : nat) (m : Mx) : Prop :=
+  exists r, wfx r C m /\ mrange m /\ 0 <= bits m <= maxb m.
+
+Lemma stack_bits ms : ms <> [] -> (forall m, In m ms -> 0 <= bits m <= maxb m) ->
+  capb (zmaxl (map bits ms)) (zmaxl (map maxb ms)) = zmaxl (map bits ms) /\
+  forall m, In m ms -> bits m <= zmaxl (map bits ms).
+Proof.
+  intros Hne Hb. split.
+  - apply capb_id.
+    assert (Hin : In (zmaxl (map bits ms)) (map bits ms)) by (apply zmaxl_in; destruct ms; [congruence|discriminate]).
+    apply in_map_iff in Hin. destruct Hin as [m0 [<- Hm0]].
+    transitivity (maxb m0); [apply Hb, Hm0|]. apply zmaxl_ge. apply in_map. exact Hm0.
+  - intros m Hm. apply zmaxl_ge. apply in_map. exact Hm.
+Qed.
+
+Lemma row_is_nth r c m i : wfx r c m -> (i < r)%nat -> row m i = nth i (dat m) [].
+Proof.
+  intros W Hi. unfold row. rewrite (wfx_cols r c m W).
+  assert (L : length (nth i (dat m) []) = c).
+  { destruct W as [[L F] _]. rewrite Forall_forall in F. apply F. apply nth_In. lia. }
+  apply (nth_ext _ _ 0 0); [rewrite map_length, seq_length; congruence|].
+  intros j Hj. rewrite map_length, seq_length in Hj.
+  rewrite (nth_map_seq (fun j => el m i j)) by exact Hj. reflexivity.
+Qed.
+
+Lemma map_trunc_row_id nb r c m i : wfx r c m -> mrange m -> bits m <= nb -> (i < r)%nat ->
+  map (trunc nb) (row m i) = row m i.
+Proof.
+  intros W R Hb Hi. unfold row. rewrite map_map. apply map_ext. intros j. apply trunc_id.
+  apply (inrange_mono _ (bits m)); [exact Hb|apply R].
+Qed.
+
+(* hstack of n >= 1 matrices with R rows each: row i of the result is the concatenation of the rows i,
+   the element width is the largest one, no element is changed *)
+Theorem hstack_any R ms i : ms <> [] -> (forall m, In m ms -> stackable_h R m) -> (i < R)%nat ->
+  exists res, mhstack ms = Some res /\ bits res = zmaxl (map bits ms) /\
+    nth i (dat res) [] = concat (map (fun m => nth i (dat m) []) ms).
+Proof.
+  intros Hne Hs Hi.
+  assert (Hb : forall m, In m ms -> 0 <= bits m <= maxb m) by (intros m Hm; destruct (Hs m Hm) as [c [_ [_ H]]]; exact H).
+  destruct (stack_bits ms Hne Hb) as [Ecap Hle].
+  destruct ms as [|m1 [|m2 rest]]; [congruence| |].
+  - destruct (Hs m1 (or_introl eq_refl)) as [c [W [Rm Hbm]]].
+    destruct (copy_correct R c m1 W Hbm Rm) as [Ed Eb].
+    exists (mcopy m1). split; [reflexivity|]. split; [exact Eb|].
+    rewrite Ed. cbn [map concat]. rewrite app_nil_r. reflexivity.
+  - assert (Hall : forallb (fun x => Nat.eqb (rows_of x) (rows_of m1)) (m1 :: m2 :: rest) = true).
+    { apply forallb_forall. intros m Hm. apply Nat.eqb_eq.
+      destruct (Hs m Hm) as [c [W _]]. destruct (Hs m1 (or_introl eq_refl)) as [c1 [W1 _]].
+      rewrite (wfx_rows R c m W), (wfx_rows R c1 m1 W1). reflexivity. }
+    assert (Hi1 : (i < rows_of m1)%nat).
+    { destruct (Hs m1 (or_introl eq_refl)) as [c1 [W1 _]]. rewrite (wfx_rows R c1 m1 W1). exact Hi. }
+    destruct (hstack_rows m1 m2 rest i Hall Hi1) as [res [E [Eb Erow]]]. cbv zeta in E, Eb, Erow.
+    exists res. split; [exact E|]. rewrite Eb, Ecap. split; [reflexivity|].
+    rewrite Erow, Eb, Ecap. rewrite concat_map, map_map. f_equal. apply map_ext_in. intros m Hm.
+    destruct (Hs m Hm) as [c [W [Rm _]]].
+    rewrite (map_trunc_row_id _ R c m i W Rm (Hle m Hm) Hi). apply (row_is_nth R c); assumption.
+Qed.
+
+Theorem hstack_errors :
+  mhstack [] = None /\
+  forall m1 m2 ms, forallb (fun x => Nat.eqb (rows_of x) (rows_of m1)) (m1 :: m2 :: ms) = false ->
+                   mhstack (m1 :: m2 :: ms) = None.
+Proof. split; [reflexivity|]. intros m1 m2 ms H. unfold mhstack. rewrite H. reflexivity. Qed.
+
+Lemma map_trunc_dat_id nb r c m : wfx r c m -> mrange m -> bits m <= nb -> map (map (trunc nb)) (dat m) = dat m.
+Proof.
+  intros W R Hb. destruct W as [Wm _]. apply (mat_ext r c); [|exact Wm|].
+  - destruct Wm as [L F]. split; [rewrite map_length; exact L|]. apply Forall_forall. intros row Hin.
+    apply in_map_iff in Hin. destruct Hin as [row' [<- Hin]]. rewrite map_length.
+    rewrite Forall_forall in F. apply F, Hin.
+  - intros i j _ _. rewrite get_map_map by apply Zmod_0_l. apply trunc_id.
+    apply (inrange_mono _ (bits m)); [exact Hb|apply R].
+Qed.
+
+(* vstack of n >= 1 matrices with C columns each: the rows of the operands one after another *)
+Theorem vstack_any C ms : ms <> [] -> (forall m, In m ms -> stackable_v C m) ->
+  exists res, mvstack ms = Some res /\ bits res = zmaxl (map bits ms) /\
+    dat res = concat (map dat ms).
+Proof.
+  intros Hne Hs.
+  assert (Hb : forall m, In m ms -> 0 <= bits m <= maxb m) by (intros m Hm; destruct (Hs m Hm) as [r [_ [_ H]]]; exact H).
+  destruct (stack_bits ms Hne Hb) as [Ecap Hle].
+  destruct ms as [|m1 [|m2 rest]]; [congruence| |].
+  - destruct (Hs m1 (or_introl eq_refl)) as [r [W [Rm Hbm]]].
+    destruct (copy_correct r C m1 W Hbm Rm) as [Ed Eb].
+    exists (mcopy m1). split; [reflexivity|]. split; [exact Eb|].
+    rewrite Ed. cbn [map concat]. rewrite app_nil_r. reflexivity.
+  - assert (Hc : forall m, In m (m1 :: m2 :: rest) -> cols_of m = C).
+    { intros m Hm. destruct (Hs m Hm) as [r [W _]]. apply (wfx_cols r C m W). }
+    assert (Hall : forallb (fun x => Nat.eqb (cols_of x) (cols_of m1)) (m1 :: m2 :: rest) = true).
+    { apply forallb_forall. intros m Hm. apply Nat.eqb_eq.
+      rewrite (Hc m Hm), (Hc m1 (or_introl eq_refl)). reflexivity. }
+    assert (Hw : forall m, In m (m1 :: m2 :: rest) -> wfm (rows_of m) (cols_of m1) (dat m)).
+    { intros m Hm. rewrite (Hc m1 (or_introl eq_refl)). destruct (Hs m Hm) as [r [W _]].
+      rewrite (wfx_rows r C m W). apply W. }
+    destruct (vstack_rows m1 m2 rest Hall Hw) as [res [E [Eb Ed]]]. cbv zeta in E, Eb, Ed.
+    exists res. split; [exact E|]. rewrite Eb, Ecap. split; [reflexivity|].
+    rewrite Ed, Eb, Ecap. rewrite concat_map, map_map. f_equal. apply map_ext_in. intros m Hm.
+    destruct (Hs m Hm) as [r [W [Rm _]]]. apply (map_trunc_dat_id _ r C m W Rm (Hle m Hm)).
+Qed.
+
+Theorem vstack_errors :
+  mvstack [] = None /\
+  forall m1 m2 ms, forallb (fun x => Nat.eqb (cols_of x) (cols_of m1)) (m1 :: m2 :: ms) = false ->
+                   mvstack (m1 :: m2 :: ms) = None.
+Proof. split; [reflexivity|]. intros m1 m2 ms H. unfold mvstack. rewrite H. reflexivity. Qed.
+
+(* concatenate(matrices, axis): 0 = hstack, 1 = vstack, anything else raises *)
+Theorem concatenate_dispatch ms ax :
+  mconcatenate ms ax = if ax =? 0 then mhstack ms else if ax =? 1 then mvstack ms else None.
+Proof. reflexivity. Qed.
+
+(* ------------------------------------------------------------------ dot: which branch for which shapes *)
+Lemma wfx_transpose r c b : wfx r c b -> wfx c r (mtranspose b).
+Proof.
+  intros W. unfold mtranspose. rewrite (wfx_rows r c b W), (wfx_cols r c b W).
+  apply wfx_mnew; apply W.
+Qed.
+
+(* the second vector brought to the orientation of the first *)
+Definition orient (a b : Mx) : Mx := if same_shape a b then b else mtranspose b.
+
+Theorem dot_dispatch r1 c1 r2 c2 a b : wfx r1 c1 a -> wfx r2 c2 b ->
+  mdot a b =
+    if ((r1 =? 1) && (c1 =? 1))%nat then
+      if ((r2 =? 1) && (c2 =? 1))%nat
+      then Some (MkMx (2 * Z.max (bits a) (bits b)) (maxb a) [[el a 0 0 * el b 0 0]])
+      else Some (mscal b (bits a) (el a 0 0))
+    else if ((r2 =? 1) && (c2 =? 1))%nat then Some (mscal a (bits b) (el b 0 0))
+    else if (((r1 =? 1) || (c1 =? 1)) && ((r2 =? 1) || (c2 =? 1)))%nat then
+      if (r1 * c1 =? r2 * c2)%nat then Some (inner_product a (orient a b)) else None
+    else if (c1 =? r2)%nat then Some (mmatmul a b) else None.
+Proof.
+  intros Wa Wb. pose proof (wfx_transpose r2 c2 b Wb) as Wt.
+  unfold mdot, is11, orient, same_shape.
+  rewrite (wfx_rows c2 r2 _ Wt), (wfx_cols c2 r2 _ Wt).
+  rewrite (wfx_rows r1 c1 a Wa), (wfx_cols r1 c1 a Wa), (wfx_rows r2 c2 b Wb), (wfx_cols r2 c2 b Wb).
+  destruct (Nat.eqb_spec r1 1); destruct (Nat.eqb_spec c1 1);
+    destruct (Nat.eqb_spec r2 1); destruct (Nat.eqb_spec c2 1); subst; cbn [andb orb];
+    repeat match goal with
+           | |- context [Nat.eqb ?x ?y] => destruct (Nat.eqb_spec x y); cbn [andb orb]
+           end; try reflexivity; try lia.
+Qed.
+
+Lemma inner_spec_flat r c x y : wfx r c x -> wfx r c y ->
+  inner_spec x y r c = sumZ (map (fun k => nth k (flat (dat x)) 0 * nth k (flat (dat y)) 0) (seq 0 (r * c))).
+Proof.
+  intros Wx Wy. unfold inner_spec. apply sumZ_map_ext. intros k Hk. apply in_seq in Hk.
+  destruct (divmod_lt r c k ltac:(lia)) as [H1 [H2 H3]].
+  unfold el. rewrite <- (nth_flat r c (dat x)) by (try apply Wx; assumption).
+  rewrite <- (nth_flat r c (dat y)) by (try apply Wy; assumption). rewrite <- H3. reflexivity.
+Qed.
+
+(* the row-major reading of a row or column vector does not change under transposition *)
+Lemma transpose_vector_flat r c b : wfx r c b -> mrange b -> bits b <= maxb b -> (r = 1 \/ c = 1)%nat ->
+  flat (dat (mtranspose b)) = flat (dat b).
+Proof.
+  intros W R Hm Hv. pose proof (wfx_transpose r c b W) as Wt.
+  apply (nth_ext _ _ 0 0).
+  - rewrite (flat_length c r) by apply Wt. rewrite (flat_length r c) by apply W. lia.
+  - intros k Hk. rewrite (flat_length c r) in Hk by apply Wt.
+    destruct Hv as [->| ->].
+    + (* 1 x c  ->  c x 1 *)
+      replace k with (k * 1 + 0)%nat at 1 by lia. rewrite (nth_flat c 1) by (try apply Wt; lia).
+      destruct (transpose_correct 1 c b k 0 W R Hm ltac:(lia) ltac:(lia)) as [E _].
+      unfold el in E. rewrite E. replace k with (0 * c + k)%nat at 2 by lia.
+      symmetry. apply (nth_flat 1 c); [apply W|lia|lia].
+    + (* r x 1  ->  1 x r *)
+      replace k with (0 * r + k)%nat at 1 by lia. rewrite (nth_flat 1 r) by (try apply Wt; lia).
+      destruct (transpose_correct r 1 b 0 k W R Hm ltac:(lia) ltac:(lia)) as [E _].
+      unfold el in E. rewrite E. replace k with (k * 1 + 0)%nat at 2 by lia.
+      symmetry. apply (nth_flat r 1); [apply W|lia|lia].
+Qed.
+
+(* dot of two vectors (rows or columns, in any combination) of equal length n: the integer inner
+   product of their readings, modulo 2^len(result); exact when max_bits is not reached *)
+Theorem dot_vectors r1 c1 r2 c2 a b : wfx r1 c1 a -> wfx r2 c2 b ->
+  mrange a -> mrange b -> 0 <= maxb a -> bits b <= maxb b ->
+  (r1 = 1 \/ c1 = 1)%nat -> (r2 = 1 \/ c2 = 1)%nat -> (r1 * c1 <> 1)%nat -> (r2 * c2 <> 1)%nat ->
+  (r1 * c1 = r2 * c2)%nat ->
+  let ip := sumZ (map (fun k => nth k (flat (dat a)) 0 * nth k (flat (dat b)) 0) (seq 0 (r1 * c1))) in
+  exists res, mdot a b = Some res /\ el res 0 0 = ip mod 2 ^ bits res /\
+              (bits a + bits b <= maxb a -> el res 0 0 = ip).
+Proof.
+  intros Wa Wb Ra Rb Hm Hmb Va Vb Na Nb Hlen ip.
+  rewrite (dot_dispatch r1 c1 r2 c2 a b Wa Wb).
+  replace ((r1 =? 1) && (c1 =? 1))%nat with false
+    by (symmetry; apply Bool.andb_false_iff; destruct (Nat.eqb_spec r1 1); destruct (Nat.eqb_spec c1 1); subst; auto; lia).
+  replace ((r2 =? 1) && (c2 =? 1))%nat with false
+    by (symmetry; apply Bool.andb_false_iff; destruct (Nat.eqb_spec r2 1); destruct (Nat.eqb_spec c2 1); subst; auto; lia).
+  replace (((r1 =? 1) || (c1 =? 1)) && ((r2 =? 1) || (c2 =? 1)))%nat with true
+    by (symmetry; apply Bool.andb_true_iff; split; apply Bool.orb_true_iff;
+        [destruct Va; [left|right]|destruct Vb; [left|right]]; apply Nat.eqb_eq; assumption).
+  replace (r1 * c1 =? r2 * c2)%nat with true by (symmetry; apply Nat.eqb_eq; exact Hlen).
+  eexists. split; [reflexivity|].
+  assert (Wo : wfx r1 c1 (orient a b) /\ mrange (orient a b) /\ flat (dat (orient a b)) = flat (dat b)).
+  { unfold orient, same_shape.
+    rewrite (wfx_rows r1 c1 a Wa), (wfx_cols r1 c1 a Wa), (wfx_rows r2 c2 b Wb), (wfx_cols r2 c2 b Wb).
+    destruct (Nat.eqb_spec r1 r2); destruct (Nat.eqb_spec c1 c2); cbn [andb].
+    - subst. split; [exact Wb|]. split; [exact Rb|reflexivity].
+    - exfalso. subst. destruct Va, Vb; subst; nia.
+    - exfalso. subst. destruct Va, Vb; subst; nia.
+    - assert (r1 = c2 /\ c1 = r2) by (destruct Va, Vb; subst; split; nia). destruct H as [-> ->].
+      split; [apply wfx_transpose; exact Wb|]. split; [apply (mrange_transpose r2 c2); assumption|].
+      apply (transpose_vector_flat r2 c2); assumption. }
+  destruct Wo as [Wo [Ro Fo]].
+  destruct (inner_product_correct r1 c1 a (orient a b) Wa Ra Ro Hm) as [E1 E2].
+  rewrite (inner_spec_flat r1 c1 a (orient a b) Wa Wo), Fo in E1, E2.
+  split; [exact E1|]. intros Hfit. apply E2.
+  assert (bits (orient a b) = bits b).
+  { unfold orient. destruct (same_shape a b); [reflexivity|].
+    unfold mtranspose. cbn [mnew bits]. apply capb_id. exact Hmb. }
+  lia.
+Qed.
